@@ -3,7 +3,11 @@ package props
 import (
 	"bytes"
 	"fmt"
+	"io"
 	"strings"
+	"sync/atomic"
+
+	"github.com/robfig/soy/soymsg/pomsg"
 
 	"github.com/robfig/soy"
 	"github.com/robfig/soy/ast"
@@ -68,6 +72,56 @@ func translationsFor(reg *template.Registry) *fakeBundle {
 	return b
 }
 
+// translationsWithPlurals is translationsFor plus plural messages: two forms (the fake bundle picks form 0 for n = 1, form 1
+// otherwise), each the wrapped text of the {case 1} / {default} body. For renders by the Go backend (the generated
+// JavaScript would need a plural selector in the runtime).
+func translationsWithPlurals(reg *template.Registry) *fakeBundle {
+	b := translationsFor(reg)
+	braced := func(body ast.ParentNode) (string, bool) {
+		var sb strings.Builder
+		for _, c := range body.Children() {
+			switch c := c.(type) {
+			case *ast.RawTextNode:
+				sb.Write(c.Text)
+			case *ast.MsgPlaceholderNode:
+				sb.WriteString("{" + c.Name + "}")
+			default:
+				return "", false
+			}
+		}
+		return sb.String(), true
+	}
+	for _, t := range reg.Templates {
+		walkAst(t.Node, func(n ast.Node) {
+			m, ok := n.(*ast.MsgNode)
+			if !ok || len(m.Body.Children()) != 1 {
+				return
+			}
+			pl, ok := m.Body.Children()[0].(*ast.MsgPluralNode)
+			if !ok {
+				return
+			}
+			other, ok := braced(pl.Default)
+			if !ok {
+				return
+			}
+			one := other
+			for _, c := range pl.Cases {
+				if c.Value == 1 {
+					if s, ok := braced(c.Body); ok {
+						one = s
+					}
+				}
+			}
+			b.msgs[m.ID] = &soymsg.Message{ID: m.ID, Parts: []soymsg.Part{soymsg.PluralPart{VarName: pl.VarName, Cases: []soymsg.PluralCase{
+				{Spec: soymsg.PluralSpec{Type: soymsg.PluralSpecOther, ExplicitValue: -1}, Parts: soymsg.Parts("«1:" + one + "»")},
+				{Spec: soymsg.PluralSpec{Type: soymsg.PluralSpecOther, ExplicitValue: -1}, Parts: soymsg.Parts("«n:" + other + "»")},
+			}}}}
+		})
+	}
+	return b
+}
+
 func compileRegistry(files []srcFile, globals map[string]ref.Value) (*template.Registry, error) {
 	b := soy.NewBundle()
 	for _, f := range files {
@@ -75,6 +129,9 @@ func compileRegistry(files []srcFile, globals map[string]ref.Value) (*template.R
 	}
 	if len(globals) > 0 {
 		b.AddGlobalsMap(toDataMap(globals))
+	}
+	if atomic.AddInt64(&compileCalls, 1)%3 == 0 {
+		b.Compile() // (see compile)
 	}
 	return b.Compile()
 }
@@ -118,6 +175,12 @@ const callFormsFile = `{namespace pr}
 {call .show data="all"}{param a: 6 /}{/call}
 [{$m.a}|{$m.s}|{$m.extra ?: 'no-extra'}]
 {/if}
+{/template}
+/** @param? m */
+{template .pluralforms}
+{msg desc="one node in the default case"}{plural length(keys($m ?: [:]))}{case 1}One apple for {$m?.s}{default}Several{/plural}{/msg}
+{msg desc="lone placeholder"}{plural 2}{case 1}a{default}{$m?.a}{/plural}{/msg}
+{msg desc="three cases"}{plural 0}{case 0}none for {$m?.s}{case 1}one{default}{$m?.a} many for {$m?.s}{/plural}{/msg}
 {/template}
 /** @param? m */
 {template .funcforms}
@@ -165,6 +228,64 @@ type c08World struct {
 	datas []data.Map
 	ij    data.Map
 	msgs  *fakeBundle
+	// prov is a catalogue written as a PO file and loaded by the library's own loader (locale fr only: fr_CA, fr-BE ...
+	// reach it through the locale fallback); nil when the bundle has no message a PO file can carry
+	prov soymsg.Provider
+}
+
+type memOpener map[string]string
+
+func (m memOpener) Open(locale string) (io.ReadCloser, error) {
+	if s, ok := m[locale]; ok {
+		return io.NopCloser(strings.NewReader(s)), nil
+	}
+	return nil, nil
+}
+
+// realCatalogue writes a French catalogue for the registry (every message translated into its own marked text) and
+// loads it through pomsg.Load.
+func realCatalogue(reg *template.Registry) soymsg.Provider {
+	var b strings.Builder
+	b.WriteString("msgid \"\"\nmsgstr \"\"\n\"Content-Type: text/plain; charset=UTF-8\\n\"\n\"Plural-Forms: nplurals=2; plural=(n > 1);\\n\"\n\n")
+	seen := map[uint64]bool{}
+	n := 0
+	for _, t := range reg.Templates {
+		walkAst(t.Node, func(nd ast.Node) {
+			m, ok := nd.(*ast.MsgNode)
+			if !ok || seen[m.ID] || pomsg.Validate(m) != nil {
+				return
+			}
+			seen[m.ID] = true
+			n++
+			var pl *ast.MsgPluralNode
+			if ch := m.Body.Children(); len(ch) == 1 {
+				pl, _ = ch[0].(*ast.MsgPluralNode)
+			}
+			if pl != nil {
+				fmt.Fprintf(&b, "#: id=%d var=%s\n", m.ID, pl.VarName)
+			} else {
+				fmt.Fprintf(&b, "#: id=%d\n", m.ID)
+			}
+			if m.Meaning != "" {
+				b.WriteString("msgctxt " + poQuote(m.Meaning) + "\n")
+			}
+			id := pomsg.Msgid(m)
+			if pl != nil {
+				idp := pomsg.MsgidPlural(m)
+				b.WriteString("msgid " + poQuote(id) + "\nmsgid_plural " + poQuote(idp) + "\nmsgstr[0] " + poQuote("‹"+id+"›") + "\nmsgstr[1] " + poQuote("‹‹"+idp+"››") + "\n\n")
+			} else {
+				b.WriteString("msgid " + poQuote(id) + "\nmsgstr " + poQuote("‹"+id+"›") + "\n\n")
+			}
+		})
+	}
+	if n == 0 {
+		return nil
+	}
+	prov, err := pomsg.Load(memOpener{"fr": b.String()}, []string{"fr", "de"})
+	if err != nil {
+		return nil
+	}
+	return prov
 }
 
 func newWorld(files []srcFile, globals map[string]ref.Value, datas []map[string]ref.Value, ij *ref.Value) (*c08World, error) {
@@ -172,7 +293,7 @@ func newWorld(files []srcFile, globals map[string]ref.Value, datas []map[string]
 	if err != nil {
 		return nil, err
 	}
-	w := &c08World{reg: reg, tofu: soyhtml.NewTofu(reg), msgs: translationsFor(reg)}
+	w := &c08World{reg: reg, tofu: soyhtml.NewTofu(reg), msgs: translationsWithPlurals(reg), prov: realCatalogue(reg)}
 	for _, d := range datas {
 		w.datas = append(w.datas, toDataMap(d))
 	}
@@ -191,7 +312,14 @@ func (w *c08World) exec(o c08Op) (out string, err error) {
 			r.Inject(w.ij)
 		}
 		if o.msgs {
-			r.WithMessages(w.msgs)
+			if w.prov != nil && (o.data/2+len(o.tmpl))%2 == 0 {
+				// the library's own catalogue, looked up under a locale that only the fallback chain resolves
+				if bd := w.prov.Bundle([]string{"fr", "fr_CA", "fr-BE", "fr_FR"}[(o.data/2+len(o.tmpl))%4]); bd != nil {
+					r.WithMessages(bd)
+				}
+			} else {
+				r.WithMessages(w.msgs)
+			}
 		}
 		err = r.Execute(&buf, w.datas[o.data])
 		return buf.String(), err
@@ -258,7 +386,7 @@ func c08History(r *fw.Rand, tier, config string, nops int) (files []srcFile, pro
 	if config == "custom" {
 		names = append(names, "cust.t")
 	}
-	names = append(names, "pr.callforms", "pr.callforms", "pr.dirforms", "pr.funcforms")
+	names = append(names, "pr.callforms", "pr.callforms", "pr.dirforms", "pr.funcforms", "pr.pluralforms", "pr.pluralforms")
 	for k := 0; k < nops; k++ {
 		if r.P(1, 4) {
 			ops = append(ops, c08Op{kind: "js", file: r.Intn(64), es6: r.Bool(), msgs: r.P(1, 3), viaGen: r.P(1, 4)})
